@@ -32,11 +32,11 @@ func enumReaders(ad *enumAdapter) []Reader {
 		{"All(always)", func() string { return fmt.Sprint(ad.allF(func(a, b any) bool { return true })) }},
 		{"Find(never)", func() string { a, b := ad.find(func(a, b any) bool { return false }); return fmt.Sprint(a, b) }},
 		{"Select(always)", func() string {
-			_, res, _ := ad.selectF(func(a, b any) bool { return true })
+			_, res, _, _ := ad.selectF(func(a, b any) bool { return true })
 			return sortRunesIf(false, fmt.Sprint(res))
 		}},
 		{"Map(first)", func() string {
-			_, res, _ := ad.mapF(func(a, b any) int { return 0 })
+			_, res, _, _ := ad.mapF(func(a, b any) int { return 0 })
 			return fmt.Sprint(res)
 		}},
 	}
